@@ -218,7 +218,15 @@ def c12(tier):
         run_s2c(rep, "MC_Binary", bin_cfg(spec="SpecL6", view="ViewFull"), R)
         run_s2c(rep, "MC_Binary", bin_cfg(spec="Spec", keys="KFull", look="LFull", vals="V3", maxlive=6,
                                           inv=BIN12 + ["EmitSt"], emit=""), R, simulate=dict(num=12000, depth=18))
-    need(rep, ["last:set-refused", "last:delsub", "last:del", "has-kv", "has-branch", "has-leaf"])
+    # a database write that raises in the middle of a call (the call raises: root and contents must
+    # be unchanged, and the trie must go on working): every behaviour up to a small depth + simulation
+    run_s2c(rep, "MC_Binary", bin_cfg(spec="SpecFL4" if tier == "quick" else "SpecFL5", view="ViewHist",
+                                      keys="KTinyB", look="LTinyB", inv=["Canonical", "MapOK"], prop=("AppendOnly",)), R)
+    run_s2c(rep, "MC_Binary", bin_cfg(spec="SpecF", keys="KFull", look="LFull", vals="V2", maxlive=5,
+                                      inv=["Canonical", "EmitSt"], prop=(), emit=""), R,
+            simulate=dict(num=240 if tier == "quick" else 4800, depth=12))
+    need(rep, ["last:set-refused", "last:delsub", "last:del", "has-kv", "has-branch", "has-leaf",
+               "failed-write-in-mid-history"])
     binary_traces(rep, tier, {"C12"})
     return rep.finish()
 
